@@ -3,7 +3,13 @@
 //	-instr OUT.go   the same file with a call `verifYield(site)` inserted before every
 //	                statement (or condition) that contains a shared-memory operation:
 //	                a method call on a field of a sync/atomic or sync.(RW)Mutex type, close(),
-//	                a channel send/receive/select.  The package must provide
+//	                a channel send/receive/select.  A blocking x.Lock() / x.RLock() statement
+//	                becomes `verifYield(s); for !x.TryLock() { verifYield(s) }` (a goroutine
+//	                that cannot take the lock burns scheduler steps instead of blocking, so
+//	                the scheduler needs no notion of blocking; the internal steps of Lock are
+//	                not atomic in reality either, so every such schedule is a real one);
+//	                `defer x.Unlock()` becomes a deferred closure that yields first.
+//	                The package must provide
 //	                verifYield(int) and verifYieldB(int) bool (see props/wg_lib.py, which adds
 //	                them to the scratch copy only).
 //	-ir OUT.v       a Gallina term of type GT.Base.ConcIR.prog: for the functions named by
@@ -459,7 +465,15 @@ func (x *xl) stmt(s ast.Stmt, inElse bool) (ast.Stmt, []ast.Stmt, []string) {
 		return t, pre, other(site, t)
 	case *ast.DeferStmt:
 		if x.needsSite(t.Call) {
-			x.errs = append(x.errs, fmt.Sprintf("%s: deferred shared-memory operation (not sited)", x.fset.Position(t.Pos())))
+			// the deferred operation runs at function exit: wrap it so that it yields first
+			site := x.newSite()
+			text := other(site, t)
+			call := t.Call
+			t.Call = &ast.CallExpr{Fun: &ast.FuncLit{
+				Type: &ast.FuncType{Params: &ast.FieldList{}},
+				Body: &ast.BlockStmt{List: []ast.Stmt{yieldStmt(site), &ast.ExprStmt{X: call}}},
+			}}
+			return t, nil, text
 		}
 		return t, nil, other(-1, t)
 	case *ast.GoStmt:
@@ -517,6 +531,21 @@ func (x *xl) stmt(s ast.Stmt, inElse bool) (ast.Stmt, []ast.Stmt, []string) {
 	case *ast.ExprStmt:
 		site, pre := x.sited(t, inElse, "expression statement")
 		if call, ok := t.X.(*ast.CallExpr); ok {
+			if k, _, isOp := x.sharedOp(call); isOp && (k == "ALock" || k == "ARLock") {
+				// blocking acquisition -> yield-spin on the Try variant
+				term := "SExpr " + gsite(site) + " " + x.expr(t.X)
+				sel := call.Fun.(*ast.SelectorExpr)
+				try := "TryLock"
+				if k == "ARLock" {
+					try = "TryRLock"
+				}
+				tryCall := &ast.CallExpr{Fun: &ast.SelectorExpr{X: sel.X, Sel: ast.NewIdent(try)}}
+				loop := &ast.ForStmt{
+					Cond: &ast.UnaryExpr{Op: token.NOT, X: tryCall},
+					Body: &ast.BlockStmt{List: []ast.Stmt{yieldStmt(site)}},
+				}
+				return loop, pre, []string{term}
+			}
 			if id, ok := call.Fun.(*ast.Ident); ok && id.Name == "close" && len(call.Args) == 1 {
 				return t, pre, []string{"SClose " + gsite(site) + " " + x.expr(call.Args[0])}
 			}
